@@ -25,7 +25,15 @@ struct char_traits_base {
 
     static constexpr auto eq(char_type a, char_type b) noexcept -> bool { return a == b; }
 
-    static constexpr auto lt(char_type a, char_type b) noexcept -> bool { return a < b; }
+    static constexpr auto lt(char_type a, char_type b) noexcept -> bool
+    {
+        if constexpr (sizeof(char_type) == 1) {
+            // [char.traits.specializations.char]: compared as unsigned char
+            return static_cast<unsigned char>(a) < static_cast<unsigned char>(b);
+        } else {
+            return a < b;
+        }
+    }
 
     static constexpr auto compare(char_type const* lhs, char_type const* rhs, size_t count) -> int
     {
@@ -34,10 +42,10 @@ struct char_traits_base {
         }
 
         for (size_t i = 0; i < count; ++i) {
-            if (lhs[i] < rhs[i]) {
+            if (lt(lhs[i], rhs[i])) {
                 return -1;
             }
-            if (lhs[i] > rhs[i]) {
+            if (lt(rhs[i], lhs[i])) {
                 return 1;
             }
         }
